@@ -17,7 +17,11 @@ Pool == << [cls |-> "ok", imports |-> {}],                       \* 1 valid, ano
            [cls |-> "jaqal_error", imports |-> {}],              \* 5 index of a let constant
            [cls |-> "parse_error", imports |-> {}],              \* 6 register of size 0
            [cls |-> "import_error", imports |-> {"nosuchmodule"}],   \* 7 missing pulse module
-           [cls |-> "ok", imports |-> {"vpulses"}] >>            \* 8 present pulse module
+           [cls |-> "ok", imports |-> {"vpulses"}],              \* 8 present pulse module
+           [cls |-> "ok", imports |-> {}],                       \* 9 integral float literal 4.0
+           [cls |-> "ok", imports |-> {}],                       \* 10 the integer 4 as size, slice bound and loop count
+           [cls |-> "ok", imports |-> {"vpulses"}],              \* 11 defines and calls a macro
+           [cls |-> "jaqal_error", imports |-> {"vpulses"}] >>   \* 12 the same call, no such macro or gate
 VARIABLES patched, mods, utilLoaded, log
 vars == <<patched, mods, utilLoaded, log>>
 Init == patched = FALSE /\ mods = {} /\ utilLoaded \in BOOLEAN /\ log = <<>>
